@@ -190,6 +190,14 @@ def library(rng):
                                           "num": RangeRandomizer(1, 3, probability=0.5, none_value=0)},
                                  "note": {":count": 1, "ty": 4, "txt": BlindTextRandomizer(sentence_count=1),
                                           "flag": ValueRandomizer(1, probability=1.0)}}}}))
+    defs.append(("js stamps, sample counts, nested hier", {
+        "types": {"*": {"g": 1}},
+        "relations": {"__root__": {"folder": {":count": 2, "ty": 1, "h": "{hier_idx}"}},
+                      "folder": {"item": {":count": RangeRandomizer(1, 3), "ty": 2, "h": "{hier_idx}", "i": "{idx}",
+                                          "d": DateRangeRandomizer(date(2020, 3, 1), 5)},      # as_js_stamp=True (default)
+                                 "note": {":count": 2, "ty": 4, "i": "{idx}", "s": SampleRandomizer([3, 4, 5], counts=[1, 5, 1])}},
+                      "item": {"leaf": {":count": 2, "ty": 3, "h": "{hier_idx}", "i": "{idx}",
+                                        "f": RangeRandomizer(-1.0, 1.0, probability=0.7)}}}}))
     defs.append(("probability 0 and 1", {
         "relations": {"__root__": {"folder": {":count": 1, "ty": 1, "flag": SparseBoolRandomizer(probability=0.0),
                                               "v": ValueRandomizer(9, probability=1.0)}},
